@@ -3,8 +3,11 @@
  * markers, records execve arguments / exits / reaps, injects ONE planned failure in the chosen
  * process, and turns a hang into data.  x86_64 Linux.  Self-contained (does not use sysinj).
  *
- *   spawntrace -o LOG [-i task=T,nr=NAME,k=K,(err=E|ret=V)] [-t MILLISECONDS] [-f FD:r|w:PATH]... -- PROG ARGS...
+ *   spawntrace -o LOG [-i task=T,nr=NAME,k=K,(err=E|ret=V)] [-t MILLISECONDS] [-s SCHEDULE] [-f FD:r|w:PATH]... -- PROG ARGS...
  *
+ * -s free|parent-first|child-first fixes the interleaving of the caller and the forked child at the two
+ * extremes the model allows: parent-first parks the child at birth until the caller enters its read on
+ * the sync pipe; child-first parks the caller when fork returns until the child exec'ed / exited.
  * -f opens PATH on descriptor FD for PROG (not close-on-exec).  At the markers spawn:begin and
  * returned:* the descriptor table of the marking task is logged:
  *   {"ev":"fds","task":1,"at":"begin","pid":..,"pgrp":..,"fds":[{"fd":0,"link":"..","acc":0,"cloexec":0},..],"cwd":".."}
@@ -85,6 +88,8 @@ struct task {
     int alive;
     int pending_stop; /* first stop seen, waiting for numbering */
     int expect_stop;  /* numbered at the parent's fork event, automatic SIGSTOP still to come */
+    int hold;         /* schedule control: park this task at its next stop */
+    int parked, parksig;
     int in_sys;
     int inwin;
     int execd;
@@ -105,6 +110,31 @@ static int window = 0;
 static volatile sig_atomic_t timed_out = 0;
 
 static struct { int on, task, sys, k; long long val; int fired; } INJ;
+/* schedule control (-s): 0 free; 1 parent-first: the forked child (task 2) is parked at its first stop until
+ * the caller (task 1) is entering its first read (then blocks on the sync pipe); 2 child-first: the caller is
+ * parked when fork returns until the child has exec'ed, exited or passed the return marker */
+static int SCHED = 0;
+static int sched_done = 0;
+static int child2_done = 0;
+
+static void resume(struct task *t, int sig)
+{
+    if (t->hold) {
+        t->parked = 1;
+        t->parksig = sig;
+        return;
+    }
+    ptrace(PTRACE_SYSCALL, t->pid, 0, sig);
+}
+static void release(struct task *t)
+{
+    t->hold = 0;
+    if (t->parked) {
+        t->parked = 0;
+        ptrace(PTRACE_SYSCALL, t->pid, 0, t->parksig);
+    }
+}
+static struct task *bynum(int idx);
 
 static void die(const char *fmt, ...)
 {
@@ -126,6 +156,24 @@ static struct task *find(pid_t pid)
         if (T[i].pid == pid && T[i].alive)
             return &T[i];
     return NULL;
+}
+static struct task *bynum(int idx)
+{
+    for (int i = 0; i < ntask; i++)
+        if (T[i].idx == idx && T[i].alive)
+            return &T[i];
+    return NULL;
+}
+static void child_done(void)
+{
+    /* child-first: the child has exec'ed / exited / escaped -> let the caller go on */
+    struct task *p = bynum(1);
+    child2_done = 1;
+    if (SCHED == 2 && p) {
+        if (p->hold)
+            fprintf(LOG, "{\"ev\":\"sched\",\"what\":\"child exec'ed / exited / escaped; caller released\"}\n");
+        release(p);
+    }
 }
 static struct task *newtask(pid_t pid)
 {
@@ -309,8 +357,11 @@ static void sys_enter(struct task *t, struct user_regs_struct *r)
             free(b.p);
             if (!strcmp(m + 5, "spawn:begin"))
                 dump_fds(t, "begin");
-            else if (!strncmp(m + 5, "returned:", 9))
+            else if (!strncmp(m + 5, "returned:", 9)) {
                 dump_fds(t, "returned");
+                if (t->idx == 2)
+                    child_done();
+            }
             if (t->idx == 1 && !strcmp(m + 5, "spawn:begin")) {
                 window = 1;
                 t->inwin = 1;
@@ -327,6 +378,8 @@ static void sys_enter(struct task *t, struct user_regs_struct *r)
     if (si < 0 || !t->inwin)
         return;
     t->k = ++t->cnt[si];
+    if (SCHED == 1 && t->idx == 1 && t->nr == SYS_read && !sched_done)
+        sched_done = 2;   /* main loop: resume the caller, give it time to block, then release the child */
     if (t->nr == SYS_execve) {
         char path[4096];
         struct sbuf b = {0};
@@ -387,8 +440,15 @@ static void sys_exit(struct task *t, struct user_regs_struct *r)
         if (ret == 0) {
             t->execd = 1;
             t->inwin = 0; /* the new program's calls are not the subject */
+            if (t->idx == 2)
+                child_done();
         }
         return;
+    }
+    if (SCHED == 2 && t->idx == 1 && (t->nr == SYS_fork || t->nr == SYS_vfork || t->nr == SYS_clone) && ret > 0 && !sched_done) {
+        sched_done = 1;
+        if (!child2_done)
+            t->hold = 1;   /* parked by the resume that follows this stop */
     }
     fprintf(LOG, "{\"ev\":\"sys\",\"task\":%d,\"nr\":\"%s\",\"k\":%d,\"args\":[%lld,%lld,%lld],\"ret\":%lld,\"inj\":%s", t->idx,
             SYS[si].name, t->k, i32(t->a[0]), i32(t->a[1]), i32(t->a[2]), ret, t->injected ? "true" : "false");
@@ -443,7 +503,10 @@ int main(int argc, char **argv)
             logpath = argv[++ai];
         else if (!strcmp(argv[ai], "-t") && ai + 1 < argc)
             timeout_ms = atol(argv[++ai]);
-        else if (!strcmp(argv[ai], "-f") && ai + 1 < argc && nopen < 8)
+        else if (!strcmp(argv[ai], "-s") && ai + 1 < argc) {
+            const char *m = argv[++ai];
+            SCHED = !strcmp(m, "parent-first") ? 1 : !strcmp(m, "child-first") ? 2 : 0;
+        } else if (!strcmp(argv[ai], "-f") && ai + 1 < argc && nopen < 8)
             opens[nopen++] = argv[++ai];
         else if (!strcmp(argv[ai], "-i") && ai + 1 < argc) {
             char *spec = strdup(argv[++ai]), *tok, *sp = NULL;
@@ -537,6 +600,12 @@ int main(int argc, char **argv)
             t->alive = 0;
             nalive--;
             fprintf(LOG, "{\"ev\":\"exit\",\"task\":%d,\"status\":%d,\"execd\":%s}\n", t->idx, st, t->execd ? "true" : "false");
+            if (t->idx == 2)
+                child_done();
+            if (t->idx == 1)
+                for (int i = 0; i < ntask; i++)
+                    if (T[i].alive)
+                        release(&T[i]);
             if (t->idx == 1) {
                 root_status = st;
                 root_gone = 1;
@@ -572,23 +641,25 @@ int main(int argc, char **argv)
                 was_pending = c->pending_stop;
             c->idx = nextidx++;
             c->inwin = t->inwin;
+            if (SCHED == 1 && c->idx == 2 && t->idx == 1 && t->inwin && !sched_done)
+                c->hold = 1;
             fprintf(LOG, "{\"ev\":\"fork\",\"parent\":%d,\"child\":%d}\n", t->idx, c->idx);
             if (was_pending) {
                 c->pending_stop = 0;
-                ptrace(PTRACE_SYSCALL, c->pid, 0, 0);
+                resume(c, 0);
             }
-            ptrace(PTRACE_SYSCALL, pid, 0, 0);
+            resume(t, 0);
             continue;
         }
         if (ev == PTRACE_EVENT_EXEC) {
-            ptrace(PTRACE_SYSCALL, pid, 0, 0);
+            resume(t, 0);
             continue;
         }
         if (sig == (SIGTRAP | 0x80)) {
             struct user_regs_struct r;
             struct ptrace_syscall_info si;
             if (ptrace(PTRACE_GETREGS, pid, 0, &r) < 0) {
-                ptrace(PTRACE_SYSCALL, pid, 0, 0);
+                resume(t, 0);
                 continue;
             }
             long n = ptrace(PTRACE_GET_SYSCALL_INFO, pid, sizeof si, &si);
@@ -605,22 +676,31 @@ int main(int argc, char **argv)
                 sys_exit(t, &r);
             }
             fflush(LOG);
-            ptrace(PTRACE_SYSCALL, pid, 0, 0);
+            resume(t, 0);
+            if (sched_done == 2) {
+                /* parent-first: the caller is entering its read on the sync pipe */
+                struct task *c = bynum(2);
+                sched_done = 1;
+                usleep(1500);
+                fprintf(LOG, "{\"ev\":\"sched\",\"what\":\"caller entered read on the sync pipe; child released\"}\n");
+                if (c)
+                    release(c);
+            }
             continue;
         }
         if (sig == SIGSTOP && t->expect_stop) {
             /* the automatic SIGSTOP of a freshly attached child (numbered before it stopped) */
             t->expect_stop = 0;
-            ptrace(PTRACE_SYSCALL, pid, 0, 0);
+            resume(t, 0);
             continue;
         }
         if (sig == SIGTRAP && ev == 0) {
-            ptrace(PTRACE_SYSCALL, pid, 0, 0);
+            resume(t, 0);
             continue;
         }
         /* signal delivery stop: pass the signal on */
         fprintf(LOG, "{\"ev\":\"signal\",\"task\":%d,\"sig\":%d}\n", t->idx, sig);
-        ptrace(PTRACE_SYSCALL, pid, 0, sig);
+        resume(t, sig);
     }
     int to = 0;
     if (timed_out && nalive > 0) {
